@@ -119,6 +119,23 @@ pub(crate) fn sched_point(db_path: &str, name: &'static str) {
     }
 }
 
+thread_local! {
+    static CURRENT_DB: std::cell::RefCell<Option<String>> = const { std::cell::RefCell::new(None) };
+}
+
+/// Remember which database the calling thread is working for (used by [`sched_point_current`]).
+pub(crate) fn set_current_db(db_path: Option<&str>) {
+    CURRENT_DB.with(|cell| *cell.borrow_mut() = db_path.map(|p| p.to_string()));
+}
+
+/// Like [`sched_point`] for code that has no access to the database path.
+pub(crate) fn sched_point_current(name: &'static str) {
+    let path = CURRENT_DB.with(|cell| cell.borrow().clone());
+    if let Some(path) = path {
+        sched_point(&path, name);
+    }
+}
+
 /// Announce a condition variable wait.
 pub(crate) fn about_to_wait(db_path: &str, which: &'static str) {
     if let Some(obs) = observer(db_path) {
